@@ -307,7 +307,12 @@ func (x *Exec) opaqueCall(s *State, f *Frame, cc *CallCtx, callee Value, mayPani
 	setResult(res)
 	// panicking branch
 	pv := x.Ctx.Fresh("panicval", SInt)
-	sp.Assume(Gt(pv, IntLit(0)))
+	if x.NilPanics {
+		// pre-1.21 semantics: panic(nil) makes recover() return nil
+		sp.Assume(Ge(pv, IntLit(0)))
+	} else {
+		sp.Assume(Gt(pv, IntLit(0)))
+	}
 	evp := ev
 	evp.Rets = nil
 	evp.Kind = "call-panicked"
